@@ -702,6 +702,28 @@ for _f in ("openssl_process_rsa", "openssl_process_ec", "openssl_process_eddsa")
         "contracts/jwk_parse_c.h", "json_t *j; jwk_item_t *it; %s(j, it);" % _f, "%s/%s" % (_f, _c), replace=["jwt_strcmp/contract_exact_jwt_strcmp"],
         stubs=JWKP_STUBS, defines=["VERIF_B64_TRACK", "VERIF_ALLOC_RECORD_FAIL", "VERIF_WELLFORMED"], flags=[],
         expect=[_c + "\\.postcondition\\.1"], timeout=900, replay={"driver": "replay/r_C08_ec.c"} if _f == "openssl_process_ec" else None))
+
+# ---- the per-call token object (jwt.c) and the *_free of builders / checkers ----
+_OBJ_STUBS = LIBC + ["stubs/alloc.c", "stubs/jansson.c"]
+P["C17"]["units"] += [
+    U("C17.jwt_new", "jwt_new (libjwt/jwt.c)", JWT_C, "contracts/jwt_obj_c.h", "jwt_new();", "jwt_new/contract_C17_jwt_new",
+      stubs=_OBJ_STUBS, defines=["VERIF_TU_JWT"], flags=[], expect=["contract_C17_jwt_new\\.postcondition\\.2"], timeout=300),
+    U("C17.jwt_free", "jwt_free (libjwt/jwt.c)", JWT_C, "contracts/jwt_obj_c.h", "jwt_t *j; jwt_free(j);", "jwt_free/contract_C17_jwt_free",
+      stubs=_OBJ_STUBS, defines=["VERIF_TU_JWT"], flags=[], expect=["contract_C17_jwt_free\\.postcondition\\.1", "vj_release\\.assertion\\.1"], timeout=300)]
+
+P["C14"]["units"].append(U("C14.jwt_get_alg", "jwt_get_alg (libjwt/jwt.c)", JWT_C, "contracts/jwt_obj_c.h", "const jwt_t *j; jwt_get_alg(j);", "jwt_get_alg/contract_C14_jwt_get_alg",
+      stubs=_OBJ_STUBS, defines=["VERIF_TU_JWT"], flags=[], expect=["contract_C14_jwt_get_alg\\.postcondition\\.1"], timeout=300))
+for _side in ("CHECKER", "BUILDER"):
+    _fn = "jwt_%s_free" % _side.lower()
+    P["C17"]["units"].append(U("C17." + _fn, _fn + " (libjwt/jwt-common.c)", common_tu(_side), "contracts/jwt_obj_c.h", "jwt_%s_t *c; %s(c);" % (_side.lower(), _fn),
+        _fn + "/contract_C17_cmd_free", stubs=_OBJ_STUBS, defines=["VERIF_TU_" + _side], flags=[], expect=["contract_C17_cmd_free\\.postcondition\\.1"], timeout=300))
+
+P["C12"]["units"] += [
+    ops_unit("jwt_get_crypto_ops", "jwt_get_crypto_ops", "contract_C12_jwt_get_crypto_ops", "jwt_get_crypto_ops();"),
+    ops_unit("jwt_get_crypto_ops_t", "jwt_get_crypto_ops_t", "contract_C12_jwt_get_crypto_ops_t", "jwt_get_crypto_ops_t();"),
+    ops_unit("jwt_crypto_ops_supports_jwk", "jwt_crypto_ops_supports_jwk", "contract_C12_jwt_crypto_ops_supports_jwk", "jwt_crypto_ops_supports_jwk();")]
+for _u in P["C12"]["units"][-3:]:
+    _u["expect"] = [_u["enforce"].split("/")[1] + "\\.postcondition\\.1"]
 _REC_DOERS = ["__getter/contract_rec___getter", "__setter/contract_rec___setter", "__deleter/contract_rec___deleter"]
 for _w in ("header_get", "header_set", "claim_get", "claim_set"):
     P["C15"]["units"].append(U("C15.jwt_%s" % _w, "jwt_%s -> __run_it (libjwt/jwt-setget.c)" % _w, SETGET_C, "contracts/jwt_setget_c.h",
